@@ -15,7 +15,7 @@ use isograph_lang_types::{
 
 use crate::{
     BOOLEAN_ENTITY_NAME, CompilationProfile, FLOAT_ENTITY_NAME, ID_ENTITY_NAME, INT_ENTITY_NAME,
-    IsographDatabase, STRING_ENTITY_NAME, entity_not_defined_diagnostic,
+    IsographDatabase, STRING_ENTITY_NAME, entity_not_defined_diagnostic, flattened_entity_named,
     flattened_selectables_for_entity,
 };
 
@@ -303,6 +303,20 @@ fn object_satisfies_type<TCompilationProfile: CompilationProfile>(
     object_literal: &[NameValuePair<ValueKeyName, NonConstantValue>],
     object_entity_name: EntityName,
 ) -> DiagnosticResult<()> {
+    // An object literal can only be supplied where an (input) object is expected.
+    let expects_object = flattened_entity_named(db, object_entity_name)
+        .is_some_and(|entity| entity.lookup(db).selection_info.as_object().is_some());
+    if !expects_object {
+        return Diagnostic::new(
+            format!("Expected input of type {object_entity_name}, found an object literal"),
+            selection_supplied_argument_value
+                .location
+                .to::<Location>()
+                .wrap_some(),
+        )
+        .wrap_err();
+    }
+
     validate_no_extraneous_fields(
         db,
         object_entity_name,
